@@ -173,8 +173,9 @@ func modeC18(e *Env) {
 	// pairs: all in thorough, a covering sample in quick
 	np := len(reps)
 	stride := 1
-	if !e.Thorough() && np*np > 6000 {
-		stride = np*np/6000 + 1
+	limit := e.N(6000, 250000)
+	if np*np > limit {
+		stride = np*np/limit + 1
 	}
 	k := e.R.Intn(stride)
 	for ; k < np*np; k += stride {
